@@ -959,7 +959,9 @@ pub fn single(input: &Value) -> Value {
 }
 
 pub fn boot_seed_n(seed: u64, n: usize) -> u64 {
-    derive_n(seed, "boot", n as u64)
+    // the lowest bit of a boot seed selects the process environment (boot::boot): odd = bare.
+    // Consecutive boot seeds alternate, so every check runs both kinds of process.
+    (derive_n(seed, "boot", n as u64) & !1) | (n as u64 & 1)
 }
 
 pub fn _unused(seed: u64) -> u64 {
